@@ -6,7 +6,7 @@
    every reachable world, for every handler behaviour - so every structural change sends the
    notifications that are needed, and a view never contains a stale or missing archetype. *)
 From Coq Require Import List NArith Bool.
-Require Import EV.Base EV.Query EV.World EV.ArchProofs.
+Require Import EV.Base EV.Query EV.World EV.ArchProofs EV.ArchAccess.
 
 Theorem c10_partial_refresh_caches_matching_archetype :
   forall (ai : N) (a : arch) (k : fkind) (q : query) (c : list centry),
